@@ -542,7 +542,7 @@ def run_property(mod, tier, seed, replay=None):
         # build those too, so that a regenerated Gen/ file never leaves a stale .vo behind
         extra_targets = []
         for s_ in getattr(mod, "SUITES", []):
-            for imp in re.findall(r"Require\s+(?:Import|Export)\s+([^.]*(?:\.[A-Za-z0-9_']+)*)\s*\.", getattr(s_, "coq_imports", "") or ""):
+            for imp in re.findall(r"Require\s+(?:Import|Export)\s+(.*?)\.(?:\s|$)", getattr(s_, "coq_imports", "") or "", re.S):
                 for name in imp.split():
                     t = "theories/" + name.replace(".", "/") + ".vo"
                     if os.path.exists(os.path.join(COQ, t[:-1])) and t not in extra_targets:
